@@ -4,7 +4,7 @@ import gen_bus
 
 RULE = ('python-random histories over 3 connections: AddMatch/RemoveMatch with rule texts from the grammar (every key, '
         'quoting forms, near-miss variants of held rules, invalid rules), broadcast and unicast signals and calls whose '
-        'leading arguments are strings/paths/ints chosen to sit on the prefix/namespace boundaries (every fourth scenario: rules with up to three argument keys of mixed kinds; every twelfth: unique names one of which is a prefix of another, named in rules, with the shorter one leaving), ownership changes '
+        'leading arguments are strings/paths/ints chosen to sit on the prefix/namespace boundaries (every fourth scenario: rules with up to three argument keys of mixed kinds; every twelfth: unique names one of which is a prefix of another, named in rules, with the shorter one leaving; every twelfth: a sender named by a well-known name that has queued owners who also send), ownership changes '
         'and disconnects in between; distinct = distinct scenario texts')
 W = {'req': 1.5, 'rel': 0.7, 'query': 0.3, 'addmatch': 4, 'rmmatch': 2.5, 'signal': 6, 'call': 1, 'reply': 0.5,
      'usignal': 1.5, 'close': 0.3, 'driver_other': 0.3, 'nodest': 0.1}
@@ -31,9 +31,35 @@ def prefix_named(rng):
     return {'cfg': {}, 'rounds': rounds}
 
 
+def queued_sender(rng):
+    """rules that name a sender (or an eavesdropped destination) by a WELL-KNOWN name mean its primary owner only: what the
+    connections waiting in the queue for that name send does not match, before and after the ownership changes hands"""
+    sig = lambda tag: {'k': 'send', 'ty': 4, 'path': '/a', 'ifc': 'com.example.I', 'mem': 'Ma', 'sig': 's', 'body': [tag]}
+    n = 'com.example.A'
+    rounds = [{'ops': {'1': [{'k': 'connect', 'uid': 0}, {'k': 'hello'}, {'k': 'addmatch', 'rule': "type='signal',sender='%s'" % n}] +
+                              ([{'k': 'addmatch', 'rule': "sender='%s',member='Ma'" % n}] if rng.random() < 0.3 else [])}},
+              {'ops': {'2': [{'k': 'connect', 'uid': 0}, {'k': 'hello'}, {'k': 'req', 'n': n, 'f': rng.choice([0, 1])}]}},
+              {'ops': {'3': [{'k': 'connect', 'uid': 0}, {'k': 'hello'}, {'k': 'req', 'n': n, 'f': 0}]}},
+              {'ops': {'4': [{'k': 'connect', 'uid': 0}, {'k': 'hello'}] + ([{'k': 'req', 'n': n, 'f': 0}] if rng.random() < 0.5 else [])}}]
+    def everybody(tag):
+        order = [2, 3, 4]
+        rng.shuffle(order)
+        for s in order:
+            rounds.append({'ops': {str(s): [sig('%s%d' % (tag, s))]}})
+    everybody('a')
+    rounds.append({'ops': {'2': [{'k': rng.choice(['rel', 'close']), 'n': n}]}})
+    everybody('b')
+    rounds.append({'ops': {'2': [{'k': 'connect', 'uid': 0}, {'k': 'hello'}, {'k': 'req', 'n': n, 'f': 0}]}})
+    everybody('c')
+    rounds.append({'ops': {'1': [{'k': 'query', 'q': 'queued', 'n': n}]}})
+    return {'cfg': {}, 'rounds': rounds}
+
+
 def gen(rng, i):
     if i % 12 == 9:
         return prefix_named(rng)
+    if i % 12 == 3:
+        return queued_sender(rng)
     g = gen_bus.Gen(rng, nslots=3, nnames=2, w=W, eavesdrop=0.15 if i % 3 == 0 else 0.0, odd_rules=0.12,
                     cfg={'maxMatch': 4} if i % 5 == 4 else None)
     if i % 4 == 1:
